@@ -478,3 +478,207 @@ func leanNats(xs []int64) string {
 
 func leanTuple(parts ...string) string { return "(" + strings.Join(parts, ", ") + ")" }
 func leanRec(parts ...string) string   { return "⟨" + strings.Join(parts, ", ") + "⟩" }
+
+// ---------------------------------------------------------------- rendering with substitution
+
+// srcSubst is src(n) with every identifier that denotes an object in sub replaced by sub's text.
+// The replacement is parenthesised where the identifier is an operand of an operator, selector,
+// index, call or dereference, unless it is atomic (identifier, literal, call, already in
+// parentheses); `(&x).f` is written `x.f`.
+func (c *ctx) srcSubst(n ast.Node, sub map[types.Object]string) string {
+	text := c.src(n)
+	if len(sub) == 0 || text == "" {
+		return text
+	}
+	base := c.fset.Position(n.Pos()).Offset
+	type edit struct {
+		from, to int
+		s        string
+	}
+	var edits []edit
+	walkStack(n, func(m ast.Node, stack []ast.Node) bool {
+		id, ok := m.(*ast.Ident)
+		if !ok {
+			return true
+		}
+		o := c.info.Uses[id]
+		s, ok := sub[o]
+		if !ok || o == nil {
+			return true
+		}
+		if len(stack) > 0 {
+			operand := false
+			switch p := stack[len(stack)-1].(type) {
+			case *ast.BinaryExpr, *ast.UnaryExpr, *ast.StarExpr:
+				operand = true
+			case *ast.SelectorExpr:
+				operand = true
+				if strings.HasPrefix(s, "&") && isAtomicSrc(s[1:]) {
+					s = s[1:]
+				}
+			case *ast.IndexExpr:
+				operand = p.X == ast.Expr(id)
+			case *ast.SliceExpr:
+				operand = p.X == ast.Expr(id)
+			case *ast.CallExpr:
+				operand = p.Fun == ast.Expr(id)
+			}
+			if operand && !isAtomicSrc(s) {
+				s = "(" + s + ")"
+			}
+		}
+		from := c.fset.Position(id.Pos()).Offset - base
+		edits = append(edits, edit{from, from + len(id.Name), s})
+		return true
+	})
+	sort.Slice(edits, func(i, j int) bool { return edits[i].from < edits[j].from })
+	var sb strings.Builder
+	at := 0
+	for _, e := range edits {
+		if e.from < at || e.to > len(text) {
+			return text // cannot happen: identifiers do not overlap
+		}
+		sb.WriteString(text[at:e.from])
+		sb.WriteString(e.s)
+		at = e.to
+	}
+	sb.WriteString(text[at:])
+	return sb.String()
+}
+
+// isAtomicSrc: s needs no parentheses as an operand: an identifier / literal / selector chain,
+// optionally followed by one balanced (...) or [...] group that ends the text, e.g. `float64(len(m)+1)`.
+func isAtomicSrc(s string) bool {
+	i := 0
+	for i < len(s) && (s[i] == '_' || s[i] == '.' || s[i] >= '0' && s[i] <= '9' || s[i] >= 'a' && s[i] <= 'z' || s[i] >= 'A' && s[i] <= 'Z' || s[i] >= 0x80) {
+		i++
+	}
+	if i == len(s) {
+		return i > 0
+	}
+	if i == 0 && s[0] != '(' || s[i] != '(' && s[i] != '[' {
+		return false
+	}
+	depth := 0
+	for j := i; j < len(s); j++ {
+		switch s[j] {
+		case '(', '[':
+			depth++
+		case ')', ']':
+			depth--
+			if depth == 0 {
+				return j == len(s)-1
+			}
+		case '"', '\'', '`':
+			return false // literals inside the group: do not try to scan them
+		}
+	}
+	return false
+}
+
+// pureExpr: e is built from identifiers of variables/constants, basic literals, parentheses, unary and
+// binary operators (no `&`, no `<-`), calls of the builtin len and conversions to a basic type
+// (float64(x), int(x), …): no side effects and no dependence on anything but the variables it names.
+func (c *ctx) pureExpr(e ast.Expr) bool {
+	switch x := e.(type) {
+	case *ast.Ident:
+		switch c.obj(x).(type) {
+		case *types.Var, *types.Const:
+			return true
+		}
+		return false
+	case *ast.BasicLit:
+		return true
+	case *ast.ParenExpr:
+		return c.pureExpr(x.X)
+	case *ast.UnaryExpr:
+		return x.Op != token.AND && x.Op != token.ARROW && c.pureExpr(x.X)
+	case *ast.BinaryExpr:
+		return c.pureExpr(x.X) && c.pureExpr(x.Y)
+	case *ast.CallExpr:
+		if len(x.Args) != 1 || x.Ellipsis.IsValid() || !c.pureExpr(x.Args[0]) {
+			return false
+		}
+		if c.isBuiltin(x, "len") {
+			_, isB := c.info.Uses[unparen(x.Fun).(*ast.Ident)].(*types.Builtin)
+			return isB
+		}
+		if tv, ok := c.info.Types[x.Fun]; ok && tv.IsType() {
+			_, basic := tv.Type.Underlying().(*types.Basic)
+			return basic
+		}
+	}
+	return false
+}
+
+// hoistedLocals finds, in the body of fd, the local variables that merely name a pure expression:
+// declared by `v := e` (one variable, pureExpr e), never assigned again, address never taken, and no
+// variable occurring in e can change while v is in scope (every write to it is in the same function
+// literal as the declaration and textually before it; a loop re-executes the declaration).  Such a v
+// can be replaced by e wherever it is used.  The result maps v to the source of e (hoisted locals inside e
+// already replaced, whitespace removed).
+func (c *ctx) hoistedLocals(fd *ast.FuncDecl) map[types.Object]string {
+	out := map[types.Object]string{}
+	if fd == nil || fd.Body == nil {
+		return out
+	}
+	type site struct {
+		pos token.Pos
+		fn  ast.Node // innermost function literal (nil: fd itself)
+	}
+	where := func(n ast.Node, stack []ast.Node) site {
+		s := site{pos: n.Pos()}
+		for _, a := range stack {
+			if _, ok := a.(*ast.FuncLit); ok {
+				s.fn = a
+			}
+		}
+		return s
+	}
+	writes := map[types.Object][]site{} // assignments (not the declaration) and &v
+	type def struct {
+		at  site
+		rhs ast.Expr
+	}
+	defs := map[types.Object]def{}
+	var order []types.Object
+	walkStack(fd.Body, func(n ast.Node, stack []ast.Node) bool {
+		if u, ok := n.(*ast.UnaryExpr); ok && u.Op == token.AND {
+			if id := rootIdent(u.X); id != nil && c.obj(id) != nil {
+				writes[c.obj(id)] = append(writes[c.obj(id)], where(n, stack))
+			}
+		}
+		for _, t := range c.writeTargets(n) {
+			if id := rootIdent(t); id != nil && c.obj(id) != nil {
+				writes[c.obj(id)] = append(writes[c.obj(id)], where(n, stack))
+			}
+		}
+		if as, ok := n.(*ast.AssignStmt); ok && as.Tok == token.DEFINE && len(as.Lhs) == 1 && len(as.Rhs) == 1 {
+			if id, ok := as.Lhs[0].(*ast.Ident); ok && c.info.Defs[id] != nil && c.pureExpr(as.Rhs[0]) {
+				defs[c.info.Defs[id]] = def{where(n, stack), as.Rhs[0]}
+				order = append(order, c.info.Defs[id])
+			}
+		}
+		return true
+	})
+	for _, v := range order { // source order: a definition only mentions earlier ones
+		d := defs[v]
+		ok := len(writes[v]) == 0
+		ast.Inspect(d.rhs, func(n ast.Node) bool {
+			id, isId := n.(*ast.Ident)
+			if !isId || !ok {
+				return ok
+			}
+			for _, w := range writes[c.obj(id)] {
+				if w.fn != d.at.fn || w.pos >= d.at.pos {
+					ok = false
+				}
+			}
+			return ok
+		})
+		if ok {
+			out[v] = nosp(c.srcSubst(d.rhs, out))
+		}
+	}
+	return out
+}
